@@ -533,6 +533,48 @@ def install(E):
                 return [(P, v)]
         raise Unsupported("pop on %r" % (lst,))
 
+    @reg("method.sort")
+    def _sort(E, P, ctx, lst, key=None, reverse=None):
+        """A-LIB list.sort(key=f[, reverse=True]) on an SMT list: in place, a stable permutation ordered by the key."""
+        if not isinstance(lst, SList) or key is None:
+            raise Unsupported("sort on %r" % (lst,))
+        rev = False
+        if reverse is not None:
+            t = z3.simplify(E.truth(reverse, P))
+            if not (z3.is_true(t) or z3.is_false(t)):
+                raise Unsupported("symbolic reverse")
+            rev = z3.is_true(t)
+        n = E.l_len(P, lst)
+        old = E.l_elems(P, lst)
+        new = E.fresh("sorted_el", old.sort())
+        from .values import fresh_id
+        pi = z3.Function("pi!%d" % fresh_id(), IntS, IntS)
+        inv = z3.Function("pinv!%d" % fresh_id(), IntS, IntS)
+        j = z3.Const("j!srt", IntS)
+        k = z3.Const("k!srt", IntS)
+
+        def key_at(term):
+            res = E.call(P, ctx.asspec(), key, [E.wrap(term, lst.ekind)], {})
+            if len(res) != 1:
+                raise Unsupported("sort key forks")
+            v = E.num(res[0][1])
+            E.need_num(v)
+            return v.real()
+
+        nj, nk = z3.Select(new, j), z3.Select(new, k)
+        P.assume(z3.ForAll([j], z3.Implies(z3.And(0 <= j, j < n), z3.And(0 <= pi(j), pi(j) < n, nj == z3.Select(old, pi(j)), inv(pi(j)) == j)),
+                           patterns=[nj]))
+        oj = z3.Select(old, j)
+        P.assume(z3.ForAll([j], z3.Implies(z3.And(0 <= j, j < n), z3.And(0 <= inv(j), inv(j) < n, z3.Select(new, inv(j)) == oj, pi(inv(j)) == j)),
+                           patterns=[oj]))
+        kj, kk = key_at(nj), key_at(nk)
+        ordered = (kj >= kk) if rev else (kj <= kk)
+        P.assume(z3.ForAll([j, k], z3.Implies(z3.And(0 <= j, j < k, k < n), z3.And(ordered, z3.Implies(kj == kk, pi(j) < pi(k)))),
+                           patterns=[z3.MultiPattern(nj, nk)]))
+        E.l_set_elems(P, lst, new)
+        E.assume_used("A-LIB:list.sort(key) is a stable permutation ordered by the key")
+        return [(P, NONE)]
+
     @reg("method.get")
     def _get(E, P, ctx, d, k, default=NONE):
         if isinstance(d, Handle) and d.kind == "dict":
